@@ -315,3 +315,70 @@ func VerifC07ForwardAuthCopyHeadersAreTheAuthServices() {
 	}
 	vrt.Assert("C12.copyhdr.stored-headers-within-max_headers", !tight || size <= 16)
 }
+
+// refCleanPath: the canonical form of an absolute request path, written from the definition (no empty, "." or ".."
+// segments; ".." removes the segment before it and never climbs above the root; no trailing slash except for the root).
+func refCleanPath(p string) string {
+	var segs []string
+	cur := ""
+	flush := func() {
+		switch cur {
+		case "", ".":
+		case "..":
+			if len(segs) > 0 {
+				segs = segs[:len(segs)-1]
+			}
+		default:
+			segs = append(segs, cur)
+		}
+		cur = ""
+	}
+	for i := 0; i < len(p); i++ {
+		if p[i] == '/' {
+			flush()
+		} else {
+			cur += string(p[i : i+1])
+		}
+	}
+	flush()
+	if len(segs) == 0 {
+		return "/"
+	}
+	return "/" + strings.Join(segs, "/")
+}
+
+// verif:harness props=C10 tier=quick native=yes weight=25
+// verif:bounds the request path handed to route resolution (and from there to HMAC and forward auth): any absolute path of 1..6 bytes (thorough 7) over the alphabet {'/', '.', 'a', 'b'} — every combination of empty, dot and dot-dot segments, trailing slashes and trailing dot segments — through the real ServeHTTP
+func VerifC10RequestPathIsCanonicalBeforeRouting() {
+	max := 6
+	if vrt.Thorough() {
+		max = 7
+	}
+	p := vrt.String("path", max)
+	vrt.Assume(len(p) >= 1 && p[0] == '/')
+	for i := 0; i < len(p); i++ {
+		vrt.Assume(p[i] == '/' || p[i] == '.' || p[i] == 'a' || p[i] == 'b')
+	}
+	w := &hRW{}
+	st := &hStore{w: w, neverFail: true}
+	s := NewServer(st)
+	seen := []string{}
+	s.ResolveRoute = func(r *http.Request, rp string) (string, bool) {
+		seen = append(seen, rp)
+		return "", false
+	}
+	s.AllowedMethodsFor = func(r *http.Request, rp string) []string {
+		seen = append(seen, rp)
+		return nil
+	}
+	r := &http.Request{Method: "POST", URL: &url.URL{Path: p}, Header: http.Header{}, Body: http.NoBody, RemoteAddr: "1.2.3.4:5", Host: "h"}
+	s.ServeHTTP(w, r)
+	want := refCleanPath(p)
+	vrt.Observe("asked", len(seen))
+	ok := len(seen) >= 1
+	for _, rp := range seen {
+		ok = ok && rp == want
+	}
+	vrt.Assert("C10.path.routing-sees-the-canonical-path", ok)
+	vrt.Assert("C10.path.unmatched-request-is-404-and-touches-nothing", w.status == 404 && len(st.envs) == 0)
+}
